@@ -10,6 +10,7 @@ import ast
 import itertools
 from collections import OrderedDict
 from collections.abc import Mapping
+from copy import deepcopy
 
 from mc import alphabets as A
 from mc import formats as F
@@ -61,9 +62,8 @@ def wellformed(ir, signature=None):
         if not isinstance(p, Mapping):
             bad("entry_type", "mapping", type(p).__name__, entry=entry)
             continue
-        extra = sorted(map(str, set(p) - ALLOWED_KEYS))
-        if extra:
-            bad("entry_keys", "only typ/doc/default/x_typ", extra, entry=entry, key=",".join(extra))
+        for extra in sorted(map(str, set(p) - ALLOWED_KEYS)):
+            bad("entry_keys", "only typ/doc/default/x_typ", "key %r" % extra, entry=entry, key=extra)
         if "typ" in p:
             t = p["typ"]
             if not isinstance(t, str):
@@ -165,8 +165,40 @@ def partial_functions():
                         yield dict(style=style, documented=list(names), header=header, indent=indent), src
 
 
+# ---- (e) JSON-schema documents built from a property-feature alphabet ------------------------------------------
+JS_TYPES = [("string", "string"), ("integer", "integer"), ("number", "number"), ("boolean", "boolean"), ("object", "object"), ("array", "array"),
+            ("nullable_string", ["string", "null"]), ("absent", None)]
+JS_PATTERNS = [("absent", None), ("words", "a|b"), ("one_word", "a"), ("hyphen_space", "x-y|p q"), ("digit_underscore", "mean_squared_error|l1|hinge"),
+               ("regex", "^[a-z]+$"), ("empty", "")]
+JS_EXTRAS = [("none", {}), ("enum", {"enum": ["a", "b"]}), ("format", {"format": "date-time"}), ("items", {"items": {"type": "string"}}), ("ref", {"$ref": "#/$defs/other"}),
+             ("anyof", {"anyOf": [{"type": "string"}, {"type": "integer"}]}), ("bounds", {"minimum": 0, "maxLength": 5}), ("title", {"title": "Alpha", "examples": ["a"]})]
+JS_DEFAULTS = [("absent", None), ("value", True)]
+JS_DOCS = [("doc", "the value"), ("nodoc", None)]
+
+
+def json_schema_documents():
+    for (tk, t), (pk, pat), (xk, extra), (dk, d), (ck, c), required in itertools.product(JS_TYPES, JS_PATTERNS, JS_EXTRAS, JS_DEFAULTS, JS_DOCS, (True, False)):
+        prop = {}
+        if c is not None:
+            prop["description"] = c
+        if t is not None:
+            prop["type"] = t
+        if pat is not None:
+            prop["pattern"] = pat
+        prop.update(extra)
+        if d is not None:
+            base = t[0] if isinstance(t, list) else t
+            prop["default"] = {"string": "a", "integer": 5, "number": 0.5, "boolean": True, "object": {"k": 1}, "array": ["a"], None: "a"}[base]
+        doc = {"$id": "https://example.com/cfg.schema.json", "$schema": "https://json-schema.org/draft/2020-12/schema", "description": "Summary line.", "type": "object",
+               "properties": {"alpha": prop, "beta": {"description": "the other", "type": "integer"}}, "required": ["alpha", "beta"] if required else ["beta"]}
+        yield dict(typ=tk, pattern=pk, extra=xk, default=dk, doc=ck, required=required), doc
+
+
 def cases(tier, seed):
     n = 3 if tier == "quick" else 4
+    js = list(json_schema_documents())
+    for lo in range(0, len(js), 64):
+        yield dict(kind="json_schema_block", lo=lo, hi=lo + 64)
     yield dict(kind="doc_block", prefix=[], maxlen=1)
     for i in range(len(c11.SIGMA_DOC)):
         for j in range(len(c11.SIGMA_DOC)):
@@ -257,13 +289,36 @@ def run(case):
             names = [(nm, kind, (nm in key["documented"]) or (kind in ("vararg", "kwarg") and nm in doc_text)) for nm, kind in names]
             report("function", ir, dict(kind="partial_one", key=key, src=src), signature=names, source="partial", style=key["style"], n_documented=len(key["documented"]),
                    header_kind=key["header"].split("(", 1)[1])
+    elif case["kind"] in ("json_schema_block", "json_schema_one"):
+        import cdd.json_schema.parse
+
+        items = [(case["key"], case["doc"])] if case["kind"] == "json_schema_one" else list(json_schema_documents())[case["lo"]: case["hi"]]
+        for key, doc in items:
+            n += 1
+            transitions += 1
+            try:
+                ir = cdd.json_schema.parse.json_schema(deepcopy(doc))
+            except Exception:
+                outcomes.add("raises")
+                continue
+            outcomes.add("returns")
+            sub = dict(kind="json_schema_one", key=key, doc=doc)
+            for clause, exp, obs, extra in wellformed(ir):
+                sig = dict(check="wellformed", parser="json_schema", clause=clause, source="handwritten")
+                sig.update(extra)
+                if extra.get("key") == "pattern":
+                    sig["js_pattern"] = key["pattern"]  # which kind of pattern text was left behind
+                if clause != "entry_keys":
+                    sig.update(js_typ=key["typ"], js_extra=key["extra"])
+                if not any(x["sig"] == sig for x in viol):
+                    viol.append(dict(sig=sig, expected=exp, observed=obs, case=sub))
     elif case["kind"] == "reparse":
         ir0 = F.ir_from_json(case["ir"])
         from mc.checks import c08
 
         for fmt, kw in REPARSE:
-            if not c08.applicable(fmt, "rest", ir0):
-                continue  # outside that format's representable domain
+            if not (c08.applicable(fmt, "rest", ir0) or (fmt == "json_schema" and all(str(p.get("typ")).startswith("Literal[") or {p.get("typ")} <= c08.JSON_TYPES for p in ir0["params"].values()))):
+                continue  # outside that format's representable domain (any Literal is representable as a JSON-schema pattern)
             for style in F.STYLES if fmt in ("class", "function", "docstring") else ("rest",):
                 n += 1
                 transitions += 2
@@ -285,8 +340,9 @@ def describe(tier):
         rule="(a) every docstring of <= {n} tokens over the 28-token alphabet (parser outputs whenever it returns, both emit_default_doc); (b) {g} "
         "grammar-generated docstrings: 3 styles x all orders of <= 4 of 7 sections x separators x indentation; (c) every interface of I(1) u I(2) "
         "emitted through 10 format variants and re-parsed; (d) {p} functions documenting every subset and permutation of a 3-parameter "
-        "signature under 5 signature shapes (defaults, self, keyword-only, *args/**kwargs), 3 styles, indented or not; "
-        "a case = one parser input".format(n=3 if tier == "quick" else 4, g=sum(1 for _ in grammar_docstrings()), p=sum(1 for _ in partial_functions())),
+        "signature under 5 signature shapes (defaults, self, keyword-only, *args/**kwargs), 3 styles, indented or not; (e) {j} JSON-schema documents: a property built from "
+        "8 types x 7 patterns (word lists, lists with non-letters, a real regex) x 8 further keywords (enum, format, items, $ref, anyOf, bounds, title) x default x description x required; "
+        "a case = one parser input".format(n=3 if tier == "quick" else 4, g=sum(1 for _ in grammar_docstrings()), p=sum(1 for _ in partial_functions()), j=sum(1 for _ in json_schema_documents())),
         bounds=dict(sigma_doc=c11.SIGMA_DOC, sections=list(SECTIONS["rest"]), signature=SIG),
         exhaustive=True,
         assumptions=["shape predicate mc/checks/c14.py:wellformed transcribes the property text; 'doc' may be None at the top level as the declared type says Optional[str]"],
